@@ -22,6 +22,7 @@
 package main
 
 import (
+	"fmt"
 	"io"
 	"log"
 	"runtime"
@@ -33,18 +34,54 @@ import (
 	. "verifharness/common"
 )
 
-func val(v interface{}) Sx {
-	if v == nil {
-		return List()
-	}
-	return Int(int64(v.(int)))
-}
+// Elements.  In a case an element is an integer id (or () for nil); the Go value stored in the
+// queue is chosen by the id: ints, strings, slices (not comparable with ==), pointers, structs, and
+// for the id -7 a typed nil pointer (a non-nil interface value).  A queue that compares, copies
+// by type or special-cases some kind of value would show it.
+type box struct{ id int }
 
 func elem(s Sx) interface{} {
 	if s.Kind == 'l' {
 		return nil
 	}
-	return s.AsInt()
+	v := s.AsInt()
+	if v == -7 {
+		return (*box)(nil)
+	}
+	switch ((v % 5) + 5) % 5 {
+	case 1:
+		return fmt.Sprintf("v%d", v)
+	case 2:
+		return []int{v}
+	case 3:
+		return &box{v}
+	case 4:
+		return box{v}
+	}
+	return v
+}
+
+func val(x interface{}) Sx {
+	switch v := x.(type) {
+	case nil:
+		return List()
+	case int:
+		return Int(int64(v))
+	case string:
+		var n int
+		fmt.Sscanf(v, "v%d", &n)
+		return Int(int64(n))
+	case []int:
+		return Int(int64(v[0]))
+	case *box:
+		if v == nil {
+			return Int(-7)
+		}
+		return Int(int64(v.id))
+	case box:
+		return Int(int64(v.id))
+	}
+	return Int(-999999)
 }
 
 // ---------------------------------------------------------------- deque
@@ -94,12 +131,37 @@ func runDequeOnce(in Sx, limit time.Duration) (Sx, bool) {
 	final := make(chan fin, 1)
 	go func() {
 		var q *queue.Deque
-		if ctor.Len() == 0 {
+		switch ctor.Len() { // NewDeque(size ...int) with 0, 1, 2 or 3 arguments; () is the zero value
+		case 0:
 			q = new(queue.Deque)
-		} else {
+		case 1:
+			q = queue.NewDeque(ctor.At(0).AsInt())
+		case 2:
 			q = queue.NewDeque(ctor.At(0).AsInt(), ctor.At(1).AsInt())
+		case 3:
+			q = queue.NewDeque(ctor.At(0).AsInt(), ctor.At(1).AsInt(), ctor.At(2).AsInt())
+		default:
+			q = queue.NewDeque()
 		}
+		// other objects of the package used between the calls on q: anything shared at package
+		// level would show on q
+		other := queue.NewDeque(3)
+		otherQ := queue.NewUnbounded()
 		for k := 0; k < ops.Len(); k++ {
+			Catch(func() {
+				switch k % 4 {
+				case 0:
+					other.PushBack(k)
+					otherQ.Push(k)
+				case 1:
+					other.PushFront("x")
+				case 2:
+					other.Rotate(k)
+					otherQ.Pop()
+				default:
+					other.PopBack()
+				}
+			})
 			results <- dequeOp(q, ops.At(k))
 		}
 		_, _, mc, buf := q.VerifProbe()
@@ -519,7 +581,9 @@ var echoes int
 func (g *dgen) push() {
 	g.pushed = true
 	g.next++
-	if g.rng.Chance(1, 40) {
+	if g.rng.Chance(1, 60) {
+		g.add(List(Int(int64(g.rng.Intn(2))), Int(-7))) // a typed nil pointer: not a nil interface
+	} else if g.rng.Chance(1, 40) {
 		g.add(List(Int(int64(g.rng.Intn(2))), List())) // a nil element
 	} else {
 		g.add(List(Int(int64(g.rng.Intn(2))), Int(g.next)))
@@ -711,6 +775,16 @@ func genDeque(rng *Rng, thorough bool) (string, Sx) {
 		ctor, kind = Ints(int64(rng.PickInt(1, 5, 15, 16, 17, 33, 64, 65)), int64(rng.PickInt(0, 1, 16, 17, 32, 33, 100))), "deque-new"
 	default:
 		ctor, kind = Ints(int64(rng.Intn(300))-20, int64(rng.Intn(200))-20), "deque-new"
+	}
+	if ctor.Len() == 2 { // NewDeque is variadic: one argument, three arguments, none
+		switch rng.Intn(12) {
+		case 0, 1:
+			ctor = Ints(ctor.At(0).Int64())
+		case 2:
+			ctor = Ints(ctor.At(0).Int64(), ctor.At(1).Int64(), 7)
+		case 3:
+			ctor = Ints(0, 0, 0, 0)
+		}
 	}
 	if rng.Chance(1, 3) {
 		g.fewOps()
